@@ -473,3 +473,63 @@ m('c17-save-unprotected-twin', ['C17'],
   (SL, """                print("Stored Single Layer to {}".format(cache_fn))""",
    """                print("Stored SL to {}".format(cache_fn))"""),
   expect='silent')
+
+# ---- C15 ------------------------------------------------------------------
+m('c15-drop-side', ['C15'],
+  (Q, "        return (d - c) * (b - a) * (l - k) * np.dot(fx, self.weights)",
+   "        return (d - c) * (b - a) * np.dot(fx, self.weights)"),
+  rule='R-affine')
+m('c15-wrong-points', ['C15'],
+  (Q, "            k + (l - k) * self.points[2]", "            k + (l - k) * self.points[1]"),
+  rule='R-affine')
+m('c15-2d-wrong-bound', ['C15'],
+  (Q, "[a + (b - a) * self.points[0], c + (d - c) * self.points[1]])",
+   "[a + (b - a) * self.points[0], c + (d - a) * self.points[1]])"),
+  rule='R-affine')
+m('c15-mirror-y-wrong-slot', ['C15'],
+  (Q, "            self._mirror_y = QuadScheme2D([self.points[0], 1 - self.points[1]],",
+   "            self._mirror_y = QuadScheme2D([1 - self.points[0], self.points[1]],"),
+  rule='R-mirror')
+m('c15-mirror-z', ['C15'],
+  (Q, "                [self.points[0], self.points[1], 1 - self.points[2]],",
+   "                [self.points[0], 1 - self.points[1], self.points[2]],"),
+  rule='R-mirror')
+m('c15-duffy2d-weight', ['C15'],
+  (Q, "        weights = scheme2d.weights * x\n", "        weights = scheme2d.weights * y\n"),
+  rule='R-jac')
+m('c15-duffy3d-jac', ['C15'],
+  (Q, "            weights = np.tile(scheme3d.weights * x**2 * y, 6)",
+   "            weights = np.tile(scheme3d.weights * x * y, 6)"), rule='R-jac')
+m('c15-duffy3d-map', ['C15'],
+  (Q, "        T2 = [x * (1 - y + y * z), x * y * z, x]",
+   "        T2 = [x * (1 - y + z), x * y * z, x]"), rule='R-jac')
+m('c15-duffy3d-tile5', ['C15'],
+  (Q, "            weights = np.tile(scheme3d.weights * x**2 * y, 6)",
+   "            weights = np.tile(scheme3d.weights * x**2 * y, 5)"),
+  rule='R-jac')
+m('c15-touch-map', ['C15'],
+  (Q, "        P3 = [x * y, z * y, y]", "        P3 = [x * y, z, y]"),
+  rule='R-jac')
+m('c15-touch-weight', ['C15'],
+  (Q, "        weights = np.tile(scheme3d.weights * y**2, 3)",
+   "        weights = np.tile(scheme3d.weights * y, 3)"), rule='R-jac')
+m('c15-product-repeat', ['C15'],
+  (Q, """        points = np.array([
+            np.repeat(scheme_x.points, len(scheme_y.points)),
+            np.tile(scheme_y.points, len(scheme_x.points))
+        ])
+        weights = np.kron(scheme_x.weights, scheme_y.weights)""",
+   """        points = np.array([
+            np.repeat(scheme_x.points, len(scheme_x.points)),
+            np.tile(scheme_y.points, len(scheme_x.points))
+        ])
+        weights = np.kron(scheme_x.weights, scheme_y.weights)"""),
+  rule='R-layout')
+m('c15-product-kron', ['C15'],
+  (Q, "        weights = np.kron(scheme_x.weights, scheme_y.weights)\n        super().__init__(points=points, weights=weights)\n\n\nclass QuadpyScheme2D",
+   "        weights = np.kron(scheme_y.weights, scheme_x.weights)\n        super().__init__(points=points, weights=weights)\n\n\nclass QuadpyScheme2D"),
+  rule='R-layout')
+m('c15-duffy2d-sym-twin', ['C15'],
+  (Q, "        y = 1 - scheme2d.points[1]\n        xy = x * y\n        weights = scheme2d.weights * x\n",
+   "        y = 1 - scheme2d.points[1]\n        xy = y * x\n        weights = x * scheme2d.weights\n"),
+  expect='silent')
